@@ -27,19 +27,26 @@ InputsFor(R) ==
   \cup (IF Has(R, 4) THEN { << [nt |-> 3, eoi |-> TRUE], [nt |-> 4, eoi |-> TRUE] >>,
                             << [nt |-> 3, eoi |-> TRUE], [nt |-> 4, eoi |-> FALSE] >> } ELSE {})
 PrecFamilies ==
-  IF WithPrec THEN { << [assoc |-> "left", terms |-> <<1>>] >>, << [assoc |-> "right", terms |-> <<1>>] >>,
-                     << [assoc |-> "nonassoc", terms |-> <<1>>] >>,
-                     << [assoc |-> "left", terms |-> <<1>>], [assoc |-> "left", terms |-> <<2>>] >>,
-                     << [assoc |-> "right", terms |-> <<2>>], [assoc |-> "nonassoc", terms |-> <<1>>] >>,
-                     << [assoc |-> "left", terms |-> <<1, 2>>] >> }
-  ELSE { <<>> }
-Grammars == UNION { { [nT |-> 3, nS |-> IF Has(R, 4) THEN 5 ELSE 4, rules |-> SetToSortSeq(R, RuleLess), inputs |-> inp, prec |-> p]
-                      : inp \in InputsFor(R), p \in PrecFamilies } : R \in RuleSets }
+  << << [assoc |-> "left", terms |-> <<1>>] >>, << [assoc |-> "right", terms |-> <<1>>] >>,
+     << [assoc |-> "nonassoc", terms |-> <<1>>] >>,
+     << [assoc |-> "left", terms |-> <<1>>], [assoc |-> "left", terms |-> <<2>>] >>,
+     << [assoc |-> "right", terms |-> <<2>>], [assoc |-> "nonassoc", terms |-> <<1>>] >>,
+     << [assoc |-> "left", terms |-> <<1, 2>>] >>,
+     << [assoc |-> "nonassoc", terms |-> <<2>>], [assoc |-> "right", terms |-> <<1>>] >> >>
+Grammars == UNION { { [nT |-> 3, nS |-> IF Has(R, 4) THEN 5 ELSE 4, rules |-> SetToSortSeq(R, RuleLess), inputs |-> inp, prec |-> <<>>]
+                      : inp \in InputsFor(R) } : R \in RuleSets }
 Valid(g) == (\A i \in 1..Len(g.inputs) : g.inputs[i].nt < g.nS) /\ Nonterms(g) \subseteq Productive(g)
 All == SetToSeq({ g \in Grammars : Valid(g) })
-Out == SelectSeq([i \in 1..Len(All) |-> [k |-> i, g |-> All[i]]], LAMBDA x : x.k % Stride = Offset)
+Picked == SelectSeq([i \in 1..Len(All) |-> [k |-> i, g |-> All[i]]], LAMBDA x : x.k % Stride = Offset)
+(* with precedence: every picked grammar gets one family (by index) - or all of them when VERIF_UG_ALLPREC = 1 *)
+AllPrec == IOEnv.VERIF_UG_ALLPREC = "1"
+WithFamily(x, f) == [x.g EXCEPT !.prec = PrecFamilies[f]]
+NF == Len(PrecFamilies)
+Out == IF ~WithPrec THEN [i \in 1..Len(Picked) |-> Picked[i].g]
+       ELSE IF AllPrec THEN [j \in 1..(Len(Picked) * NF) |-> WithFamily(Picked[((j - 1) \div NF) + 1], ((j - 1) % NF) + 1)]
+       ELSE [i \in 1..Len(Picked) |-> WithFamily(Picked[i], 1 + (Picked[i].k % NF))]
 ASSUME PrintT(<<"lalrgen universe", Len(All), "emitted", Len(Out)>>)
-ASSUME ndJsonSerialize(IOEnv.VERIF_OUT, [i \in 1..Len(Out) |-> Out[i].g])
+ASSUME ndJsonSerialize(IOEnv.VERIF_OUT, Out)
 VARIABLE x
 Init == x = 0
 Next == UNCHANGED x
